@@ -234,6 +234,46 @@ func runC06() {
 			}
 		}
 	}
+	// ranges whose bounds are calls of ConstExpr functions (no literal bound anywhere): the optimizer evaluates the calls at compile
+	// time, but the range is still created by the RUN and has to be accounted - the optimized program needs what the unoptimized needs
+	for _, src := range []string{"len(1..Inc(99))", "len(Inc(0)..Add(50, 50))", "map(Inc(0)..Inc(4), {#})", "len(Inc(-1)..Inc(1999))", "(Inc(0)..Inc(63))[3]", "len(Inc(0)..Inc(I))",
+		"filter(Inc(1)..Add(10, 10), {# > 3})", "[len(Inc(0)..Inc(9)), len(Add(1, 1)..Add(20, 20))]", "Inc(5) in Inc(0)..Inc(9) ? len(Inc(0)..Inc(29)) : 0"} {
+		var progs [2]*vm.Program
+		ok := true
+		for k, opt := range []bool{false, true} {
+			p, err := expr.Compile(src, expr.Env(envs[0]), expr.ConstExpr("Inc"), expr.ConstExpr("Add"), expr.Optimize(opt))
+			if err != nil {
+				ok = false
+				break
+			}
+			progs[k] = p
+		}
+		if !ok {
+			rep.hist("rejected at compile time")
+			continue
+		}
+		for ei, e := range envs {
+			r0, need0 := runWithBudget(progs[0], e, math.MaxInt64/4)
+			r1, need1 := runWithBudget(progs[1], e, math.MaxInt64/4)
+			rep.Evaluations += 2
+			rep.hist("ranges bounded by ConstExpr calls")
+			if r0.err != nil || r1.err != nil {
+				continue
+			}
+			distinct[fmt.Sprintf("constexpr-range|%s|%d", src, ei)] = true
+			if need1 < need0 {
+				rb, _ := runWithBudget(progs[1], e, need0)
+				got := "completed under that budget"
+				if rb.err != nil {
+					got = firstLineOf(rb.err.Error())
+				}
+				rep.fail(Failure{Key: "C06-completed-at-budget", What: "a run that creates at least as many elements as the budget completed: ranges bounded by ConstExpr calls are accounted with the optimizer off and not with it on",
+					Input: map[string]interface{}{"src": src, "options": "Env, ConstExpr(Inc), ConstExpr(Add), Optimize(true)", "env": ei, "budget": need0, "need": need0},
+					Want:  "memory budget exceeded", Got: fmt.Sprintf("accounted %d; %s", need1, got)})
+				break
+			}
+		}
+	}
 	rep.Distinct = len(distinct)
 	rep.Rule = "allocating expressions (array/map literals, run-time ranges with ascending, empty and descending bounds chosen by the environment, map/filter results, nestings to depth 3) compiled untyped and typed+optimized; for each environment the ideal run (budget 2^61) gives the need N read from the VM's counter (verif hook) and cross-checked against the elements visible in the result; then budgets N+1, N, 1, 2, N/2, N+17, 10^6: success with the same result iff budget > N, 'memory budget exceeded' iff budget <= N; distinct_nontrivial = distinct (source, mode, environment) with N >= 1; the runs with the first three budgets are also evaluated in the Coq VM and reference semantics (N <= 8000; above that only the run under budget 1)"
 	for i := 0; i < 5 && i < len(srcs); i++ {
